@@ -31,7 +31,14 @@ def _refuted_keys(prop: str, root: str) -> Tuple[Dict[str, str], List[str]]:
 
     ctx = Ctx(prop, "quick", root)
     mod = importlib.import_module(f"sa.rules.{prop.lower()}")
-    mod.run(ctx)
+    try:
+        mod.run(ctx)
+    except Exception as e:  # the same treatment as sa.main.run_property: an anchor of the wiring vanished
+        from sa.model import AnalysisInconclusive
+
+        if not isinstance(e, AnalysisInconclusive):
+            raise
+        ctx.rep.inconclusive(e.rule, e.where, e.why + " (the remaining rules of this property were not run)")
     ref = {r.key: r.rule for r in ctx.rep.results if r.status == "REFUTED"}
     inc = [r.key for r in ctx.rep.results if r.status == "INCONCLUSIVE"]
     return ref, inc
